@@ -268,6 +268,15 @@ fn run_c15(t: &mut Tape, _tier: Tier) -> RunOut {
     mix.max_logical = 2;
     mix.logical_p10 = 3;
     let mut j = |cx: &DeliveryCtx, out: &mut RunOut| judge_c15(cx, out);
+    if t.chance(12) {
+        // the body types the library converts itself
+        let mut out = RunOut::default();
+        crate::direct2::body_conversions(t, &mut out);
+        out.deliveries = 3;
+        out.nontrivial = true;
+        out.shape = crate::tape::fnv(crate::tape::FNV0, &[0xB0, t.below(16) as u8]);
+        return out;
+    }
     if t.chance(3) {
         crate::deliver::run_form_world(t, &mix, &mut j)
     } else {
